@@ -495,7 +495,7 @@ def rundmc(
                 blockoffset = hdf["block"][nrecorded - 1] + 1
 
             configs.load_hdf(hdf)
-            weights = np.array(hdf["weights"])
+            weights = np.array(hdf["weights"], dtype=float)
             if "e_trial" not in hdf.keys():
                 raise ValueError(
                     "Did not find e_trial in the restart file. This may mean that you are trying to restart from a different version of DMC"
